@@ -68,6 +68,14 @@ def t0_sources(ctx, modname, clause='T0'):
 
 def run(ctx):
     repo = ctx.repo
+    # executing the generated code never modifies a file of the array: the 'darr' program only constructs a handle
+    # (default mode 'r') and indexes it, so the constructor performs no file-system mutation (shared with C07 A5)
+    from ..effects import MUTATING
+    init = repo.cls('Array').methods.get('__init__')
+    eff = [e for e in ctx.E.may(init) if e.kind in MUTATING] if init is not None else []
+    ctx.decide(init is not None and not eff, 'R-OWN', 'A5', init, None, 'constructor-effect-free::Array',
+               'Array.__init__ performs no file-system mutation (running the generated darr read code never changes a file)',
+               detail='opening the array can write: ' + '; '.join(e.describe() for e in eff[:3]))
     t0_sources(ctx, 'readcodearray')
     try:
         ia, ir = space.make_interps(repo)
